@@ -72,7 +72,7 @@ EXTENDS Integers, Sequences, FiniteSets, TLC, Json
 
 CONSTANTS Keys,      \* object names
           InitObjs,  \* templates an object of the initial cluster may have been created from
-          L1, L2, L3, \* document-set level for streams of length 1, 2, 3: "rich" | "medium" | "order" | "num" | "none"
+          L1, L2, L3, \* document-set level for streams of length 1, 2, 3: "rich" | "medium" | "order" | "orderq" | "num" | "none"
           AsIs,      \* see above
           Emit,      \* TRUE: print JSON cases
           SampleMod, Seed \* streams of length >= 2 are printed when Hash % SampleMod = Seed % SampleMod (1 = all)
@@ -104,8 +104,10 @@ CreateForms(level) == IF level = "medium" THEN {"inline", "yamlstr"} ELSE Forms(
 Subs(level)  == IF level \in {"rich", "medium"} THEN {"", "status"} ELSE {""}
 MergeVars(level) == IF level \in {"rich", "medium"} THEN {"m", "d"} ELSE {"m"}
 JqVars(level)    == IF level = "rich" THEN {"q", "c", "a"} ELSE IF level = "medium" THEN {"c", "a"} ELSE {"a"}
-Tpls(level)  == IF level = "num" THEN {"3"} ELSE IF level = "order" THEN {"2"} ELSE {"1", "2"}
-Igns(level, op) == IF level = "order" /\ op # "MergePatch" THEN {FALSE} ELSE BOOLEAN
+OrderLevels == {"order", "orderq"}      \* "orderq": the quick-tier subset (one delete mode)
+Tpls(level)  == IF level = "num" THEN {"3"} ELSE IF level \in OrderLevels THEN {"2"} ELSE {"1", "2"}
+Igns(level, op) == IF level \in OrderLevels /\ op # "MergePatch" THEN {FALSE} ELSE BOOLEAN
+DelOps(level) == IF level = "orderq" THEN {"DeleteInBackground"} ELSE DeleteOps
 
 ValidDocs(level) ==
   IF level = "num"
@@ -116,7 +118,7 @@ ValidDocs(level) ==
        \cup {Doc("JQPatch", k, "a", "inline", "", FALSE, "none") : k \in Keys}
   ELSE
        {Doc(op, k, t, f, "", FALSE, "none") : op \in CreateOps, k \in Keys, t \in Tpls(level), f \in CreateForms(level)}
-       \cup {Doc(op, k, "-", "inline", "", FALSE, "none") : op \in DeleteOps, k \in Keys}
+       \cup {Doc(op, k, "-", "inline", "", FALSE, "none") : op \in DelOps(level), k \in Keys}
        \cup {Doc("MergePatch", k, v, f, s, i, "none") : k \in Keys, v \in MergeVars(level), f \in Forms(level), s \in Subs(level), i \in Igns(level, "MergePatch")}
        \cup {Doc("JSONPatch", k, "j", f, s, i, "none") : k \in Keys, f \in Forms(level), s \in Subs(level), i \in Igns(level, "JSONPatch")}
        \cup {Doc("JQPatch", k, v, "inline", s, i, "none") : k \in Keys, v \in JqVars(level), s \in Subs(level), i \in Igns(level, "JQPatch")}
@@ -141,7 +143,7 @@ FaultDocs(level) ==
       all == UNION {{Doc(op, k0, DefaultVar(op), "inline", "", FALSE, f) : f \in FaultsFor(op)} : op \in FaultBases(level)}
   IN IF level \in {"rich", "medium"} THEN all
      ELSE {d \in all : \/ d.op = "CreateOrUpdate" /\ d.fault = "unknownField"
-                       \/ d.op = "DeleteNonCascading" /\ d.fault = "noName"
+                       \/ d.op = "DeleteNonCascading" /\ d.fault = "noName" /\ level = "order"
                        \/ d.op = "JSONPatch" /\ d.fault \in {"badPayload", "unknownOp"}}
 
 Docs(level) == IF level = "none" THEN {} ELSE ValidDocs(level) \cup FaultDocs(level)
